@@ -63,11 +63,13 @@ ASSUMPTIONS = [
 ]
 RULE = (
     "scale: fn in {scale, center, standardize} x center/scale in {True, False, number} x ddof in {0,1,2,1/2,n} x "
-    "fitting vector (integers or dyadic rationals, length 2..30, magnitude <= 2^20, occasionally constant) x 0..2 "
+    "fitting vector (integers or dyadic rationals, length 2..30, magnitude <= 2^20, occasionally constant; in 40% of the cases "
+    "all data times 2^e, e in -60..60, every comparison relative to the data magnitude) x 0..2 "
     "follow-up calls with other data AND other arguments (must be ignored), optional pre-seeded _state, route "
     "direct or through model_matrix/model_spec; poly: degree 0..6 x raw x NaN rows x follow-ups (same, lower and "
-    "too-high degree) incl. vectors with too few distinct values; elem: every name of the model table x every "
-    "probe index, plus random dyadic probes; non-trivial = fitting happens on a non-constant vector / degree >= 2 / "
+    "too-high degree) incl. vectors with too few distinct values; elem: every name of the model table x storage type "
+    "float64/int64/int32 x every probe index the type can hold (exp10: 10^k for k = -5..30 incl. negative and >= 19), "
+    "direct call and model_matrix on a column of that dtype, plus random dyadic and random integer-typed probes; non-trivial = fitting happens on a non-constant vector / degree >= 2 / "
     "a probe with k != 0; distinct by canonical JSON"
 )
 
@@ -155,9 +157,22 @@ def rand_arg(rng):
 # ----------------------------------------------------------------------------- generators
 
 
+MAG_EXPONENTS = [-60, -50, -40, -40, -30, -20, 20, 30, 40, 40, 50, 60]
+
+
+def shift_mag(vec, e):
+    """multiply a vector of "p/q" strings by 2**e (exact in binary floating point: no rounding is introduced)"""
+    f = Fraction(2) ** e
+    return [fr(Fraction(v) * f) for v in vec]
+
+
 def gen_scale(rng):
     fn = rng.choice(["scale", "scale", "scale", "center", "standardize"])
     calls = []
+    # "any magnitude": a common power-of-two factor 2^e, e in -60..60, on the fitting vector (and usually on the
+    # follow-ups); being a power of two it changes no rounding, so every comparison below is made relative to
+    # the magnitude of the data, never absolute
+    mag = rng.choice(MAG_EXPONENTS) if rng.random() < 0.4 else 0
     ncalls = rng.choice([1, 2, 2, 3])
     route = "direct"
     if rng.random() < 0.2:
@@ -174,6 +189,9 @@ def gen_scale(rng):
             if rng.random() < 0.7:
                 n = len(c["data"])
                 c["ddof"] = fr(rng.choice([0, 1, 1, 2, Fraction(1, 2), n, n + 1]))
+        if mag:
+            e = mag if (i == 0 or rng.random() < 0.7) else rng.choice(MAG_EXPONENTS + [0])
+            c["data"] = shift_mag(c["data"], e)
         calls.append(c)
     if route == "formula":
         # through a formula the data of the fit must be non-degenerate enough for the materializer; any vector works
@@ -186,7 +204,7 @@ def gen_scale(rng):
             state["center"] = rng.choice([None, fr(Fraction(rng.randint(-8, 8), 2))])
         if rng.random() < 0.6:
             state["scale"] = rng.choice([None, fr(Fraction(rng.randint(1, 9), 2)), fr(0)])
-    return dict(kind="scale", route=route, state=state, calls=calls)
+    return dict(kind="scale", route=route, state=state, calls=calls, mag=mag)
 
 
 def rand_poly_vector(rng, n=None, degree=0):
@@ -230,23 +248,47 @@ def gen_poly(rng):
     return dict(kind="poly", calls=calls)
 
 
-def elem_probe_indices(name):
-    if name in ("exp10", "log10"):
-        return list(range(0, 16))
-    if name in ("exp2", "log2"):
-        return list(range(-30, 61))
-    return [0]
+INT_RANGE = {"int64": (-(2 ** 63), 2 ** 63 - 1), "int32": (-(2 ** 31), 2 ** 31 - 1)}
+
+
+def elem_probe_indices(name, dtype):
+    """probe indices k (see Model.Elementwise.exactAt: exp2/exp10 are probed at k, log2/log10 at 2^k / 10^k);
+    for the integer storage types only points that the type can hold"""
+    if name == "exp10":
+        return {"float64": range(-5, 31), "int64": range(-5, 31), "int32": range(-3, 13)}[dtype]
+    if name == "log10":
+        return {"float64": range(0, 23), "int64": range(0, 19), "int32": range(0, 10)}[dtype]
+    if name == "exp2":
+        return {"float64": range(-30, 61), "int64": range(-30, 63), "int32": range(-10, 41)}[dtype]
+    if name == "log2":
+        return {"float64": range(-30, 61), "int64": range(0, 63), "int32": range(0, 31)}[dtype]
+    return [0] if dtype != "int32" else []
 
 
 def gen_elem_exact():
     for name in ELEM_NAMES:
-        for k in elem_probe_indices(name):
-            yield dict(kind="elem", name=name, k=k, via=("formula" if k % 5 == 2 else "direct"))
+        for dtype in ("float64", "int64", "int32"):
+            for k in elem_probe_indices(name, dtype):
+                if dtype == "float64":
+                    via = "formula" if k % 5 == 2 else "direct"
+                else:  # integer columns: every exp10 probe also through a formula, the others every third
+                    via = "formula" if (name == "exp10" or k % 3 == 1) else "direct"
+                yield dict(kind="elem", name=name, k=k, via=via, dtype=dtype)
 
 
 def gen_elem_rand(rng):
     name = rng.choice(ELEM_NAMES)
-    if name.startswith("log"):
+    dtype = rng.choice(["float64", "float64", "int64", "int32"])
+    if dtype != "float64":  # integer-typed input (an integer column of a data frame)
+        if name.startswith("log"):
+            x = Fraction(rng.randint(1, rng.choice([100, 10 ** 6, INT_RANGE[dtype][1]])))
+        elif name == "exp":
+            x = Fraction(rng.randint(-30, 40))
+        elif name == "exp2":
+            x = Fraction(rng.randint(-60, 62))
+        else:
+            x = Fraction(rng.randint(-15, 40))
+    elif name.startswith("log"):
         x = Fraction(rng.randint(1, 2 ** 30), 2 ** rng.choice([0, 5, 10, 20, 30]))
     elif name == "exp":
         x = Fraction(rng.randint(-(2 ** 12), 2 ** 12), 2 ** 8)  # |x| <= 16
@@ -254,7 +296,7 @@ def gen_elem_rand(rng):
         x = Fraction(rng.randint(-(2 ** 14), 2 ** 14), 2 ** 8)  # |x| <= 64
     else:
         x = Fraction(rng.randint(-(2 ** 12), 2 ** 12), 2 ** 8)
-    return dict(kind="elemrand", name=name, x=fr(x), via=rng.choice(["direct", "direct", "formula"]))
+    return dict(kind="elemrand", name=name, x=fr(x), via=rng.choice(["direct", "direct", "formula"]), dtype=dtype)
 
 
 def cases(rng, tier):
@@ -274,11 +316,12 @@ def describe(c):
         return "names"
     if c["kind"] == "scale":
         c0 = c["calls"][0]
-        return f"scale:{c0['fn']}:{c['route']}:calls={len(c['calls'])}:pre={len(c['state'])}"
+        m = c.get("mag", 0)
+        return f"scale:{c0['fn']}:{c['route']}:calls={len(c['calls'])}:pre={len(c['state'])}:mag={'tiny' if m < 0 else 'huge' if m > 0 else 'unit'}"
     if c["kind"] == "poly":
         c0 = c["calls"][0]
         return f"poly:{c.get('route', 'direct')}:d={c0['degree']}:raw={int(c0['raw'])}:nan={int(any(v is None for v in c0['x']))}:calls={len(c['calls'])}"
-    return f"{c['kind']}:{c['name']}"
+    return f"{c['kind']}:{c['name']}:{c.get('dtype', 'float64')}"
 
 
 def nontrivial(c):
@@ -424,17 +467,32 @@ def impl_poly(c):
     return dict(calls=res)
 
 
-def _elem_eval(name, x, via):
+def _elem_array(x, dtype, n=1):
+    """the probe value stored as `dtype` (x is a Fraction; integer types get the exact integer)"""
+    if dtype == "float64":
+        return numpy.array([float(x)] * n, dtype=numpy.float64)
+    assert x.denominator == 1 and INT_RANGE[dtype][0] <= x.numerator <= INT_RANGE[dtype][1]
+    return numpy.array([x.numerator] * n, dtype=dtype)
+
+
+def _elem_eval(name, x, via, dtype="float64"):
     from formulaic.transforms import TRANSFORMS
 
-    with numpy.errstate(all="ignore"):
-        direct = float(TRANSFORMS[name](numpy.array([x], dtype=float))[0])
-    out = dict(direct=jf(direct))
+    try:
+        with numpy.errstate(all="ignore"):
+            direct = jf(float(numpy.asarray(TRANSFORMS[name](_elem_array(x, dtype)), dtype=float)[0]))
+    except Exception as e:  # the property allows no exception on a finite real input
+        direct = "raised " + type(e).__name__
+    out = dict(direct=direct)
     if via == "formula":
         from formulaic import model_matrix
 
-        mm = model_matrix(f"0 + {name}(x)", pandas.DataFrame({"x": [x, x]}))
-        out["formula"] = jf(numpy.asarray(mm, dtype=float)[0, 0])
+        try:
+            with numpy.errstate(all="ignore"):
+                mm = model_matrix(f"0 + {name}(x)", pandas.DataFrame({"x": _elem_array(x, dtype, 2)}), na_action="ignore")
+            out["formula"] = jf(numpy.asarray(mm, dtype=float)[0, 0])
+        except Exception as e:
+            out["formula"] = "raised " + type(e).__name__
     return out
 
 
@@ -466,16 +524,20 @@ def impl(c):
     if c["kind"] == "elem":
         p = _elem_point(c["name"], c["k"])
         assert Fraction(float(p)) == p
-        o = _elem_eval(c["name"], float(p), c["via"])
+        o = _elem_eval(c["name"], p, c["via"], c.get("dtype", "float64"))
         o["point"] = fr(p)
         return o
-    x = fl(c["x"])
-    o = _elem_eval(c["name"], x, c["via"])
+    x = unfr(c["x"])
+    dtype = c.get("dtype", "float64")
+    o = _elem_eval(c["name"], x, c["via"], dtype)
     # round trip through the partner taken from the live table as well
-    with numpy.errstate(all="ignore"):
-        f, g = TRANSFORMS[c["name"]], TRANSFORMS.get(PARTNER[c["name"]])
-        if g is not None:
-            o["roundtrip"] = jf(float(g(f(numpy.array([x], dtype=float)))[0]))
+    f, g = TRANSFORMS[c["name"]], TRANSFORMS.get(PARTNER[c["name"]])
+    if g is not None:
+        try:
+            with numpy.errstate(all="ignore"):
+                o["roundtrip"] = jf(float(numpy.asarray(g(f(_elem_array(x, dtype))), dtype=float)[0]))
+        except Exception as e:
+            o["roundtrip"] = "raised " + type(e).__name__
     return o
 
 
@@ -564,15 +626,20 @@ def agree_scale(c, o, m):
         sa, sb = a["state"], b["state"]
         if sorted(sa) != sorted(sb):
             return f"call {i}: recorded state keys {sorted(sa)} vs model {sorted(sb)}"
+        # all tolerances are RELATIVE to the magnitude of the data seen so far (a mean may cancel to ~0, its rounding
+        # error is eps * max|x|), never absolute: the property quantifies over vectors of any magnitude
+        datamag = max([abs(fl(v)) for cc in c["calls"][: i + 1] for v in cc["data"]] + [0.0])
         for k in ("ddof", "center"):
             if k in sa:
                 if (sa[k] is None) != (sb[k] is None):
                     return f"call {i}: state[{k}] {sa[k]} vs model {sb[k]}"
-                if sa[k] is not None and not close(float(sa[k]), fl(sb[k]), STAT_TOL):
-                    return f"call {i}: state[{k}] {sa[k]} vs model {fl(sb[k])}"
+                if sa[k] is not None:
+                    ref = abs(fl(sb[k])) if k == "ddof" else max(abs(fl(sb[k])), datamag)
+                    if abs(float(sa[k]) - fl(sb[k])) > STAT_TOL * ref:
+                        return f"call {i}: state[{k}] {sa[k]} vs model {fl(sb[k])}"
         if (sa.get("scale") is None) != (sb.get("scale") is None):
             return f"call {i}: state[scale] {sa.get('scale')} vs model {sb.get('scale')}"
-        if sb.get("scale") is not None and not close(float(sa["scale"]), fl(sb["scale"]), STAT_TOL):
+        if sb.get("scale") is not None and abs(float(sa["scale"]) - fl(sb["scale"])) > STAT_TOL * abs(fl(sb["scale"])):
             return f"call {i}: state[scale] {sa['scale']} vs model {fl(sb['scale'])}"
         # contract of the sqrt parameter: (recorded scale)^2 == the variance the model took the root of
         if b.get("sqrt_arg") is not None:
@@ -582,8 +649,12 @@ def agree_scale(c, o, m):
                 return f"call {i}: recorded scale^2 = {float(s2)!r} but the variance is {float(var)!r} (sqrt contract)"
         if len(a["out"]) != len(b["out"]):
             return f"call {i}: output length {len(a['out'])} vs model {len(b['out'])}"
+        cm = abs(fl(sb["center"])) if sb.get("center") is not None else 0.0
+        sm = abs(fl(sb["scale"])) if sb.get("scale") is not None else 1.0
+        callmag = max([abs(fl(v)) for v in call["data"]] + [0.0])
+        outref = (callmag + cm) / sm  # size of the terms whose difference/quotient the output is
         for j, (u, v) in enumerate(zip(a["out"], b["out"])):
-            if not close(float(u), fl(v), OUT_TOL):
+            if abs(float(u) - fl(v)) > OUT_TOL * max(abs(fl(v)), outref):
                 return f"call {i}: out[{j}] = {u!r} vs model {fl(v)!r}"
     return None
 
@@ -689,9 +760,28 @@ def agree(c, o, m):
         for via in ("direct", "formula"):
             if via in o:
                 v = o[via]
-                if isinstance(v, str) or Fraction(float(v)) != unfr(m["value"]):
-                    return f"{c['name']}({float(unfr(o['point']))!r}) = {v!r} ({via}), exact value is {float(unfr(m['value']))!r}"
+                if isinstance(v, str) or not _matches_exact(float(v), unfr(m["value"])):
+                    return (f"{c['name']}({float(unfr(o['point']))!r} as {c.get('dtype', 'float64')}) = {v!r} ({via}), "
+                            f"exact value is {float(unfr(m['value']))!r}")
     return None
+
+
+def _matches_exact(v: float, true: Fraction) -> bool:
+    """equal to the exact value when that is a float; otherwise within 2 ulp of it (10**k for k > 22 or k < 0)"""
+    if Fraction(float(true)) == true:
+        return Fraction(v) == true
+    return math.isfinite(v) and abs(Fraction(v) - true) <= Fraction(1, 2 ** 51) * abs(true)
+
+
+def _elem_true(name, k) -> Fraction:
+    """independent restatement of the exact value at probe k (python integers/fractions only)"""
+    if name == "exp2":
+        return Fraction(2) ** k
+    if name == "exp10":
+        return Fraction(10) ** k
+    if name in ("log2", "log10"):
+        return Fraction(k)
+    return Fraction(1) if name == "exp" else Fraction(0)
 
 
 # ----------------------------------------------------------------------------- oracle (implementation alone)
@@ -717,7 +807,7 @@ def oracle_scale(c, o):
     centered = fresh and (fn == "center" or c0.get("center", True) is True)
     scaled = fresh and fn != "center" and c0.get("scale", True) is True
     ddof = float(Fraction(c0["ddof"])) if "ddof" in c0 else (0.0 if fn == "standardize" else 1.0)
-    mag = max(1.0, float(numpy.max(numpy.abs(x0))))
+    mag = float(numpy.max(numpy.abs(x0)))  # relative to the data's own magnitude, whatever it is
     spread = float(numpy.max(x0) - numpy.min(x0))
     if centered and not scaled and not _has_nonfinite(a0) and a0["state"].get("scale") is None:
         y = _arr(a0["out"])
@@ -749,7 +839,8 @@ def oracle_scale(c, o):
                 continue
             want = want / st0["scale"]
         got = _arr(a["out"])
-        if got.shape != want.shape or not numpy.allclose(got, want, rtol=1e-12, atol=1e-12):
+        ref = float(numpy.max(numpy.abs(want))) if want.size else 0.0
+        if got.shape != want.shape or not numpy.allclose(got, want, rtol=1e-12, atol=1e-12 * ref):
             return f"{fn}: follow-up vector not transformed with the recorded statistics {st0}: got {got.tolist()[:4]}, want {want.tolist()[:4]}"
     return None
 
@@ -844,22 +935,27 @@ def oracle_elem(c, o):
     if o.get("missing"):
         return f"the elementwise function {c['name']!r} is not preloaded (missing from TRANSFORMS)"
     name = c["name"]
+    dtype = c.get("dtype", "float64")
     x = float(_elem_point(name, c["k"])) if c["kind"] == "elem" else fl(c["x"])
-    want = REAL[name](x)
+    shown = f"{name}({x!r} stored as {dtype})" if dtype != "float64" else f"{name}({x!r})"
+    want = float(_elem_true(name, c["k"])) if c["kind"] == "elem" else REAL[name](x)
+    extra = " [exp10(x) must be 10**x]" if name == "exp10" else ""
     for via in ("direct", "formula"):
         if via not in o:
             continue
         v = o[via]
         if isinstance(v, str):
-            return f"{name}({x!r}) = {v} ({via}); the function its name denotes gives {want!r}"
-        tol = 0.0 if c["kind"] == "elem" else 1e-12 * max(abs(want), 1e-300)
-        if abs(float(v) - want) > tol:
-            extra = " [exp10(x) must be 10**x]" if name == "exp10" else ""
-            return f"{name}({x!r}) = {v!r} ({via}) but the function its name denotes gives {want!r}{extra}"
+            return f"{shown} = {v} ({via}); the function its name denotes gives {want!r}{extra}"
+        if c["kind"] == "elem":
+            ok = _matches_exact(float(v), _elem_true(name, c["k"]))
+        else:
+            ok = abs(float(v) - want) <= 1e-12 * max(abs(want), 1e-300)
+        if not ok:
+            return f"{shown} = {v!r} ({via}) but the function its name denotes gives {want!r}{extra}"
     if "roundtrip" in o:
         rt = o["roundtrip"]
         if isinstance(rt, str) or abs(float(rt) - x) > 1e-9 * max(1.0, abs(x)):
-            return f"{PARTNER[name]}({name}({x!r})) = {rt!r}: {name} and {PARTNER[name]} are not inverse to each other"
+            return f"{PARTNER[name]}({shown}) = {rt!r}: {name} and {PARTNER[name]} are not inverse to each other"
     return None
 
 
